@@ -216,14 +216,73 @@ def _c5(ctx):
     ctx.floor(R, 3)
 
 
+def _c6(ctx):
+    R = "C12-C6"
+    ctx.doc(R, "tolerances reach the filter under their own name: a keyword that names a tolerance of the callee is bound to the value of the same tolerance in the caller (the relative resource tolerance may be replaced by the "
+               "objective tolerance, never the absolute one by a relative one)")
+    TOL = ("objective_tolerance", "resource_usage_tolerance", "absolute_resource_usage_tolerance")
+    n = 0
+    for fi in ctx.repo.all_funcs("accelforge/mapper/"):
+        if fi.parent is not None:
+            continue
+        for c in fi.calls(None, into_nested=True):
+            if call_name(c) not in ("makepareto", "make_pareto", "prune_with_tolerance", "join_strategy_2", "multi_strategy_join", "makepareto_numpy"):
+                continue
+            for k in c.keywords:
+                if k.arg not in TOL:
+                    continue
+                n += 1
+                src = {x.id for x in ast.walk(k.value) if isinstance(x, ast.Name)} | {x.attr for x in ast.walk(k.value) if isinstance(x, ast.Attribute)}
+                if k.arg == "absolute_resource_usage_tolerance":
+                    ok = any("absolute" in x for x in src) or isinstance(k.value, ast.Constant)
+                    why = "the absolute grid step is taken from a relative tolerance: reservations below 1 are snapped to a grid as coarse as the relative tolerance and rows are dropped although no kept row is within the stated slack"
+                elif k.arg == "objective_tolerance":
+                    ok = not any(x in ("resource_usage_tolerance", "absolute_resource_usage_tolerance") for x in src)
+                    why = "objectives are rounded with a resource tolerance"
+                else:
+                    ok = not any("absolute" in x for x in src)
+                    why = "the relative resource tolerance is taken from the absolute one"
+                ctx.check(ok, R, fi, c, f"`{k.arg}={norm(k.value)}`: {why}", f"{k.arg} <- {norm(k.value)}")
+    ctx.require(n >= 10, R, f"tolerance keywords at filter call sites: {n}")
+    ctx.floor(R, 10)
+
+
+def _c7(ctx):
+    R = "C12-C7"
+    ctx.doc(R, "the comparison table pairs values by row POSITION: columns that went through a rounding helper may be bare arrays while others keep the frame's index labels, so every column is re-indexed 0..n-1 (or turned into an array) before the columns are put side by side")
+    fi = ctx.func(PA, "makepareto", R)
+    cats = [c for c in fi.calls("concat") if kwarg(c, "axis") is not None and norm(kwarg(c, "axis")) == "1"]
+    stacks = [c for c in fi.calls() if call_name(c) in ("column_stack", "stack", "hstack")]
+    ctx.require(len(cats) + len(stacks) == 1, R, f"construction sites of the comparison table: {len(cats) + len(stacks)}")
+    if cats:
+        c = cats[0]
+        el = c.args[0]
+        elt = el.elt if isinstance(el, (ast.GeneratorExp, ast.ListComp)) else None
+        ctx.require(elt is not None, R, f"columns handed to concat: `{norm(el)[:80]}`")
+        t = norm(elt)
+        ok = "reset_index(drop=True)" in t or ".to_numpy()" in t or ".values" in t or "np.asarray(" in t
+        ctx.check(ok, R, fi, c, f"columns are concatenated as `{t}`: pandas aligns them on their index labels (ignore_index only renumbers the columns when axis=1), so an array-valued rounded column (labels 0..n-1) "
+                  "is paired with the wrong rows of a frame whose index is permuted or filtered, and undominated rows are dropped", f"every column positional (`{t}`)")
+    else:
+        ctx.ok(R, fi, stacks[0], "columns stacked as arrays (positional)")
+    ret = [r for r in fi.stmts() if isinstance(r, ast.Return) and "fast_pareto_mask" in norm(r)]
+    ctx.check(len(ret) == 1 and ".values" in norm(ret[0]) or any("to_numpy" in norm(r) for r in ret), R, fi, ret[0] if ret else fi.node, "the mask is not computed from the table's values", "mask from positional values")
+    ctx.floor(R, 2)
+
+
 def check(ctx):
     _c1(ctx)
     _c2(ctx)
     _c3_c4(ctx)
     _c5(ctx)
+    _c6(ctx)
+    _c7(ctx)
 
 
 VARIANTS = [
+    {"kind": "F", "name": "absolute-step-from-relative-tolerance", "rule": "C12-C6", "edits": [("accelforge/mapper/FFM/_join_pmappings/pmapping_dataframe.py", "            absolute_resource_usage_tolerance=absolute_resource_usage_tolerance,\n            objective_tolerance=objective_tolerance,\n        )\n        if inplace:", "            absolute_resource_usage_tolerance=resource_usage_tolerance,\n            objective_tolerance=objective_tolerance,\n        )\n        if inplace:")]},
+    {"kind": "F", "name": "columns-aligned-by-label", "rule": "C12-C7", "edits": [(PA, "        (pd.Series(p).reset_index(drop=True) for p in to_pareto), axis=1", "        (pd.Series(p) for p in to_pareto), axis=1, ignore_index=True")]},
+    {"kind": "S", "name": "columns-as-arrays", "edits": [(PA, "        (pd.Series(p).reset_index(drop=True) for p in to_pareto), axis=1", "        (pd.Series(np.asarray(p)) for p in to_pareto), axis=1")]},
     {"kind": "F", "name": "dedup-ignores-diff-columns", "rule": "C12-C5", "edits": [("accelforge/mapper/FFM/_pareto_df/fast_pareto.py", "            pareto_rows = data[pareto_idx]", "            pareto_rows = eff_data[pareto_idx]")]},
     {"kind": "F", "name": "reservation-5-parts", "rule": "C12-C1", "edits": [(DC, 'return f"reservation<SEP>{name}<SEP>{nloops}<SEP>" + ("left" if left else "right")', 'return f"reservation<SEP>{name}<SEP>{nloops}<SEP>r<SEP>" + ("left" if left else "right")')]},
     {"kind": "F", "name": "objective-prefix-totals", "rule": "C12-C1", "edits": [(DC, '    return partition_col(c, "Total") is not None', '    return partition_col(c, "Totals") is not None')]},
